@@ -31,8 +31,8 @@ Definition obs_user (st : state) (u : Z) : list Z :=
   ++ (let p := pos_of u (s_closed st) in len p :: flat_map (fun x => [fst (snd x); snd (snd x)]) p)
   ++ (let h := s_awh st u in len h :: flat2 h).
 
-Definition obs_rewards (st : state) (u : Z) : list Z :=
-  match get_rewards st u with Ok r => 0 :: len r :: flat2 r | _ => [1] end.
+Definition obs_rewards (v : ver) (st : state) (u : Z) : list Z :=
+  match get_rewards v st u with Ok r => 0 :: len r :: flat2 r | _ => [1] end.
 
 Definition obs_share (v : ver) (st : state) (u : Z) : list Z :=
   match rewards_share v st u with Ok (g, w, s) => [0; g; w; s] | _ => [1] end.
@@ -44,7 +44,7 @@ Definition obs_state_gen (ib : Z -> Z -> Z) (accounts : list Z) (v : ver) (st : 
   ++ flat_map (obs_user st) USERS
   ++ [optz (aget (s_epoch st) (s_snap st))]
   ++ (len (s_flows st) :: flat_map obs_flow (s_flows st))
-  ++ flat_map (obs_rewards st) USERS
+  ++ flat_map (obs_rewards v st) USERS
   ++ flat_map (obs_share v st) USERS.
 
 Definition obs_state := obs_state_gen init_bal OBS_ACCOUNTS.
